@@ -124,3 +124,177 @@ Example C08_encode_no_panic_ex :
                      [MkBlock [1;85;18;32] [97;98;99]] [MkPresence [1;2;3] PDontHave] 4294967290 in
   len (write_message m) = 71 /\ size_message m = 71.
 Proof. vm_compute. split; reflexivity. Qed.
+
+(* ------------------------------------------------------------------------------------------ *)
+(* Part 2: the cursor primitives seen from the suffix of the array at `start`                 *)
+
+(* `At bs s l`: the cursor `s` is inside the array and the bytes from `s` on are `l` *)
+Definition At (bs : bytes) (s : N) (l : bytes) : Prop :=
+  s <= len bs /\ skipn (N.to_nat s) bs = l.
+
+Lemma At_zero bs : At bs 0 bs.
+Proof. split; [lia|reflexivity]. Qed.
+
+Lemma At_len bs s l : At bs s l -> s + len l = len bs.
+Proof.
+  intros [Hs <-]. unfold len in *. rewrite skipn_length. lia.
+Qed.
+
+Lemma nth_N_skipn bs : forall s, nth_N bs s = hd_error (skipn (N.to_nat s) bs).
+Proof.
+  induction bs as [|b r IH]; intros s; cbn [nth_N].
+  - rewrite skipn_nil. reflexivity.
+  - destruct (s =? 0) eqn:E.
+    + replace s with 0 by lia. reflexivity.
+    + rewrite IH. replace (N.to_nat s) with (S (N.to_nat (s - 1))) by lia. reflexivity.
+Qed.
+
+Lemma skipn_S_tail {A} (k : nat) : forall (l : list A) x t, skipn k l = x :: t -> skipn (S k) l = t.
+Proof.
+  induction k as [|k IH]; intros l x t H.
+  - cbn in H. subst l. reflexivity.
+  - destruct l as [|y l]; [discriminate|]. cbn [skipn] in H. cbn [skipn]. destruct l as [|z l].
+    + rewrite skipn_nil in H. discriminate.
+    + apply (IH _ _ _ H).
+Qed.
+
+Lemma At_cons bs s b l : At bs s (b :: l) -> nth_N bs s = Some b /\ At bs (s + 1) l.
+Proof.
+  intros H. pose proof (At_len _ _ _ H) as Hlen. rewrite len_cons in Hlen.
+  destruct H as [Hs Hsk]. split.
+  - rewrite nth_N_skipn, Hsk. reflexivity.
+  - split; [lia|]. replace (N.to_nat (s + 1)) with (S (N.to_nat s)) by lia.
+    eapply skipn_S_tail; eassumption.
+Qed.
+
+Lemma At_nil_read bs s : At bs s [] -> nth_N bs s = None.
+Proof. intros [_ H]. rewrite nth_N_skipn, H. reflexivity. Qed.
+
+Lemma At_app bs a : forall s l, At bs s (a ++ l) -> At bs (s + len a) l.
+Proof.
+  induction a as [|x a IH]; intros s l H.
+  - rewrite len_nil, N.add_0_r. exact H.
+  - cbn [app] in H. apply At_cons in H. destruct H as [_ H]. apply IH in H.
+    rewrite len_cons. replace (s + (len a + 1)) with (s + 1 + len a) by lia. exact H.
+Qed.
+
+Lemma read_u8_At bs s b l : At bs s (b :: l) -> read_u8 bs s = XOk b (s + 1) /\ At bs (s + 1) l.
+Proof.
+  intros H. apply At_cons in H. destruct H as [Hn Ha]. unfold read_u8. rewrite Hn. auto.
+Qed.
+
+Lemma At_firstn bs s a l : At bs s (a ++ l) ->
+  firstn (N.to_nat (len a)) (skipn (N.to_nat s) bs) = a.
+Proof.
+  intros [_ H]. rewrite H. unfold len. rewrite Nat2N.id. rewrite firstn_app, Nat.sub_diag, firstn_all.
+  cbn [firstn]. apply app_nil_r.
+Qed.
+
+Lemma get_range_At bs s a l : At bs s (a ++ l) -> get_range bs s (s + len a) = Some a.
+Proof.
+  intros H. pose proof (At_len _ _ _ H) as Hl. rewrite len_app in Hl.
+  unfold get_range.
+  destruct ((s <=? s + len a) && (s + len a <=? len bs)) eqn:E; [|lia].
+  replace (s + len a - s) with (len a) by lia. rewrite (At_firstn _ _ _ _ H). reflexivity.
+Qed.
+
+Lemma two64_pos : 0 < two64.
+Proof. unfold two64. apply N.neq_0_lt_0, N.pow_nonzero; lia. Qed.
+
+Lemma two64_val : two64 = 18446744073709551616.
+Proof. reflexivity. Qed.
+
+(* read_varint64 against the reference varint *)
+Lemma rv64_ref n : forall k acc bs s l v rest,
+  At bs s l -> ref_varint_go n k acc l = Some (v, rest) ->
+  exists s', rv64_go n k (acc mod two64) bs s = XOk v s' /\ At bs s' rest /\ len rest < len l.
+Proof.
+  induction n as [|n IH]; intros k acc bs s l v rest HAt Href; [discriminate|].
+  destruct l as [|b l]; [discriminate|].
+  cbn [ref_varint_go] in Href. cbn [rv64_go].
+  destruct (read_u8_At _ _ _ _ HAt) as [Hr HAt']. rewrite Hr. cbn [xbind].
+  assert (Hacc : (acc mod two64 + b mod 128 * 2 ^ (7 * k)) mod two64
+                 = (acc + b mod 128 * 2 ^ (7 * k)) mod two64).
+  { apply N.add_mod_idemp_l. pose proof two64_pos. lia. }
+  rewrite Hacc.
+  destruct (b <? 128) eqn:Eb.
+  - injection Href as <- <-. exists (s + 1). split; [reflexivity|]. split; [assumption|].
+    rewrite len_cons. lia.
+  - destruct (IH _ _ _ _ _ _ _ HAt' Href) as (s' & H1 & H2 & H3).
+    exists s'. split; [assumption|]. split; [assumption|]. rewrite len_cons. lia.
+Qed.
+
+Lemma read_varint64_ref bs s l v rest :
+  At bs s l -> ref_varint l = Some (v, rest) ->
+  exists s', read_varint64 bs s = XOk v s' /\ At bs s' rest /\ len rest < len l.
+Proof.
+  intros HAt Href. unfold read_varint64.
+  change 0 with (0 mod two64) at 2. eapply rv64_ref; eassumption.
+Qed.
+
+(* read_varint32 = the low 32 bits of the same varint *)
+Lemma pow7_succ' i : 2 ^ (7 * (i + 1)) = 128 * 2 ^ (7 * i).
+Proof.
+  replace (7 * (i + 1)) with (7 + 7 * i) by lia.
+  rewrite N.pow_add_r. reflexivity.
+Qed.
+
+Lemma mod64_mod32 a : (a mod 2 ^ 64) mod 2 ^ 32 = a mod 2 ^ 32.
+Proof.
+  change (2 ^ 64) with 18446744073709551616. change (2 ^ 32) with 4294967296. lia.
+Qed.
+
+Lemma rv32_step k acc r b :
+  acc < 2 ^ (7 * k) -> r = acc mod 2 ^ 32 ->
+  acc + (b mod 128) * 2 ^ (7 * k) < 2 ^ (7 * (k + 1)) /\
+  (if k <? 4 then r + (b mod 128) * 2 ^ (7 * k)
+   else if k =? 4 then r + (b mod 16) * 2 ^ 28 else r)
+  = (acc + (b mod 128) * 2 ^ (7 * k)) mod 2 ^ 32.
+Proof.
+  intros Hacc Hr.
+  assert (Hx : b mod 128 < 128) by (apply N.mod_lt; lia).
+  assert (Hle : b mod 128 * 2 ^ (7 * k) <= 127 * 2 ^ (7 * k)) by (apply N.mul_le_mono_r; lia).
+  split.
+  - rewrite pow7_succ'. lia.
+  - destruct (k <? 4) eqn:E4.
+    + assert (HP : 2 ^ (7 * k) <= 2 ^ 21) by (apply N.pow_le_mono_r; lia).
+      change (2 ^ 21) with 2097152 in HP.
+      subst r. change (2 ^ 32) with 4294967296.
+      remember (2 ^ (7 * k)) as P eqn:HeqP. remember (b mod 128 * P) as xP eqn:HeqxP.
+      rewrite (N.mod_small acc) by lia. rewrite N.mod_small by lia. reflexivity.
+    + destruct (k =? 4) eqn:E4'.
+      * replace k with 4 in * by lia. subst r.
+        change (2 ^ (7 * 4)) with 268435456 in *. change (2 ^ 28) with 268435456.
+        change (2 ^ 32) with 4294967296. lia.
+      * subst r. replace (7 * k) with (7 * k - 32 + 32) by lia.
+        rewrite N.pow_add_r, N.mul_assoc.
+        rewrite N.mod_add; [reflexivity|]. apply N.pow_nonzero. lia.
+Qed.
+
+Lemma rv32_ref n : forall k acc r bs s l v rest,
+  At bs s l -> acc < 2 ^ (7 * k) -> r = acc mod 2 ^ 32 ->
+  ref_varint_go n k acc l = Some (v, rest) ->
+  exists s', rv32_go n k r bs s = XOk (v mod 2 ^ 32) s' /\ At bs s' rest /\ len rest < len l.
+Proof.
+  induction n as [|n IH]; intros k acc r bs s l v rest HAt Hacc Hr Href; [discriminate|].
+  destruct l as [|b l]; [discriminate|].
+  cbn [ref_varint_go] in Href. cbn [rv32_go].
+  destruct (read_u8_At _ _ _ _ HAt) as [Hrd HAt']. rewrite Hrd. cbn [xbind].
+  destruct (rv32_step k acc r b Hacc Hr) as [Hacc' Hr'].
+  rewrite Hr'.
+  destruct (b <? 128) eqn:Eb.
+  - injection Href as <- <-. exists (s + 1). rewrite mod64_mod32.
+    split; [reflexivity|]. split; [assumption|]. rewrite len_cons. lia.
+  - destruct (IH _ _ _ _ _ _ _ _ HAt' Hacc' eq_refl Href) as (s' & H1 & H2 & H3).
+    exists s'. split; [assumption|]. split; [assumption|]. rewrite len_cons. lia.
+Qed.
+
+Lemma read_varint32_ref bs s l v rest :
+  At bs s l -> ref_varint l = Some (v, rest) ->
+  exists s', read_varint32 bs s = XOk (v mod 2 ^ 32) s' /\ At bs s' rest /\ len rest < len l.
+Proof.
+  intros HAt Href. unfold read_varint32.
+  eapply (rv32_ref 10 0 0 0); try eassumption.
+  - change (2 ^ (7 * 0)) with 1. lia.
+  - reflexivity.
+Qed.
